@@ -3,6 +3,7 @@ import SeqVerif.Model.WPIndexLemmas
 import SeqVerif.Model.WPPlain
 import SeqVerif.Model.FileWriterProofs
 import SeqVerif.Model.WPConcurrent
+import SeqVerif.Model.BulkHandler
 import SeqVerif.Extracted.C01
 /-!
 # C01 - acknowledged bulks survive any crash/restart history, intact and uncorrupted
@@ -284,6 +285,110 @@ theorem c01_witnesses_repaired :
     present (run true init orphanHistory) wd2 wm2 = true ∧ present (run true init tornMetaHistory) wd2 wm2 = true := by
   decide
 
+/-! ## The store's `Bulk` handler (Model/BulkHandler.lean): `GrpcV1.Bulk` -> `doBulk` -> `FracManager.Append` (retry loop,
+context exit) -> `proxyFrac.Append` -> `Active.Append` -/
+
+/-- **C01 (the acknowledgement of the store).**  For every environment (state of the context at each look, outcome
+of each try, bulks in flight) the handler answers OK **iff** the request is well-formed, within the in-flight limit,
+and some try `k` was acknowledged by `Active.Append` - every earlier try having been refused (nothing written) and
+the context not done at any look up to `k`.  In particular it never answers OK when it left the loop through
+`ctx.Done()`. -/
+theorem c01_bulk_handler_ack (fuel count : Nat) (e : BulkH.Env) :
+    BulkH.answersOK (BulkH.doBulk fuel count e) = true ↔
+      count ≠ 0 ∧ e.inflight ≤ e.limit ∧ ∃ k, k < fuel ∧ e.tries k = .acked ∧
+        (∀ j, j < k → e.tries j = .notWritable) ∧ ∀ j, j ≤ k → e.ctxDone j = false := by
+  unfold BulkH.doBulk
+  by_cases hc : count = 0
+  · simp [hc, BulkH.answersOK]
+  · by_cases hl : e.limit < e.inflight
+    · simp [hc, hl, BulkH.answersOK]; intro h; omega
+    · simp only [hc, hl, if_false, ne_eq, not_false_eq_true, true_and]
+      constructor
+      · intro h
+        cases ho : BulkH.fmAppend fuel e 0 with
+        | ok k =>
+          obtain ⟨_, h2, h3, h4, h5⟩ := (BulkH.fmAppend_ok fuel e 0 k).mp ho
+          exact ⟨by omega, k, by omega, h3, fun j hj => h4 j (Nat.zero_le _) hj, fun j hj => h5 j (Nat.zero_le _) hj⟩
+        | ctxErr => simp [ho, BulkH.answersOK] at h
+        | protoErr => simp [ho, BulkH.answersOK] at h
+        | limitErr => simp [ho, BulkH.answersOK] at h
+        | spinning => simp [ho, BulkH.answersOK] at h
+      · intro ⟨_, k, h2, h3, h4, h5⟩
+        have := (BulkH.fmAppend_ok fuel e 0 k).mpr ⟨Nat.zero_le _, by omega, h3, fun j _ hj => h4 j hj, fun j _ hj => h5 j hj⟩
+        simp [this, BulkH.answersOK]
+
+/-- a context that is already cancelled or expired when the handler is entered: never OK, whatever the tries would do -/
+theorem c01_bulk_handler_cancelled (fuel count : Nat) (e : BulkH.Env) (h : e.ctxDone 0 = true) :
+    BulkH.answersOK (BulkH.doBulk fuel count e) = false := by
+  cases hok : BulkH.answersOK (BulkH.doBulk fuel count e) with
+  | false => rfl
+  | true =>
+    obtain ⟨_, _, k, _, _, _, h5⟩ := (c01_bulk_handler_ack fuel count e).mp hok
+    have := h5 0 (Nat.zero_le _)
+    rw [h] at this; cases this
+
+/-- **C01 (junction J' of the system composition: a successful `Bulk` call is an acknowledged `Active.Append` of the
+payload's two blocks).**  Let a store go through any sequence of handler calls (each under its own environment),
+crashes inside a bulk and restarts, and let `histOf items` be its write-path history.  Then (i) every call that was
+answered OK contributed `bulk d m` with exactly its request's blocks, so `(d, m) ∈ ackedOf (histOf items)` - the
+hypothesis `blk ∈ WPath.ackedOf (Hst s)` of `sys_ingest_to_read_crash`; (ii) conversely every acknowledged bulk of the
+history is the payload of a call that was answered OK; (iii) the history is well-formed when the payloads are, so all
+C01 history theorems apply to it. -/
+theorem c01_bulk_handler_junction (items : List BulkH.Item) :
+    (∀ count d m e fuel, BulkH.Item.call count d m e fuel ∈ items →
+        BulkH.answersOK (BulkH.doBulk fuel count e) = true → (d, m) ∈ ackedOf (BulkH.histOf items)) ∧
+    (∀ b ∈ ackedOf (BulkH.histOf items), ∃ count e fuel, BulkH.Item.call count b.1 b.2 e fuel ∈ items ∧
+        BulkH.answersOK (BulkH.doBulk fuel count e) = true) ∧
+    ((∀ it ∈ items, match it with
+        | .call _ d m _ _ => d.WF ∧ m.WF
+        | .crashed d m _ => d.WF ∧ m.WF
+        | .restart => True) → ∀ ev ∈ BulkH.histOf items, ev.WF) := by
+  refine ⟨?_, ?_, ?_⟩
+  · intro count d m e fuel hmem hok
+    obtain ⟨pre, post, rfl⟩ := List.append_of_mem hmem
+    simp only [BulkH.histOf, List.flatMap_append, List.flatMap_cons, BulkH.effect, hok, if_true,
+      BulkH.ackedOf_append]
+    simp [ackedOf]
+  · induction items with
+    | nil => intro b hb; simp [BulkH.histOf, ackedOf] at hb
+    | cons it items ih =>
+      intro b hb
+      simp only [BulkH.histOf, List.flatMap_cons, BulkH.ackedOf_append, List.mem_append] at hb
+      rcases hb with hb | hb
+      · cases it with
+        | call count d m e fuel =>
+          simp only [BulkH.effect] at hb
+          split at hb
+          · rename_i hok
+            simp only [ackedOf, List.mem_singleton] at hb
+            subst hb
+            exact ⟨count, e, fuel, by simp, hok⟩
+          · simp [ackedOf] at hb
+        | crashed d m pt => simp [BulkH.effect, ackedOf] at hb
+        | restart => simp [BulkH.effect, ackedOf] at hb
+      · obtain ⟨count, e, fuel, hm, hok⟩ := ih b hb
+        exact ⟨count, e, fuel, by simp [hm], hok⟩
+  · intro hwf ev hev
+    simp only [BulkH.histOf, List.mem_flatMap] at hev
+    obtain ⟨it, hit, hev⟩ := hev
+    have := hwf it hit
+    cases it with
+    | call count d m e fuel =>
+      simp only [BulkH.effect] at hev
+      split at hev
+      · simp only [List.mem_singleton] at hev; subst hev; exact this
+      · simp at hev
+    | crashed d m pt => simp only [BulkH.effect, List.mem_singleton] at hev; subst hev; exact this
+    | restart => simp only [BulkH.effect, List.mem_singleton] at hev; subst hev; trivial
+
+/-- non-vacuity: two refused tries while the fraction is being sealed, then an acknowledged one; a context that
+expires at the third look; an already cancelled context -/
+example : BulkH.doBulk 10 3 ⟨fun _ => false, fun i => if i < 2 then .notWritable else .acked, 1, 32⟩ = .ok 2 := by decide
+example : BulkH.doBulk 10 3 ⟨fun i => decide (2 ≤ i), fun _ => .notWritable, 1, 32⟩ = .ctxErr := by decide
+example : BulkH.doBulk 10 3 ⟨fun _ => true, fun _ => .acked, 1, 32⟩ = .ctxErr := by decide
+example : BulkH.doBulk 10 0 ⟨fun _ => false, fun _ => .acked, 1, 32⟩ = .protoErr ∧
+    BulkH.doBulk 10 1 ⟨fun _ => false, fun _ => .acked, 2, 1⟩ = .limitErr := by decide
+
 /-! ## `frac.FileWriter`: group commit (Model/FileWriter.lean - a labelled transition system with one label per
 atomic step of writers and of `syncLoop`; `SV.FWr.exec` accepts exactly its paths; the `fw.trace` channel replays
 logged traces of the real FileWriter through it) -/
@@ -400,6 +505,24 @@ theorem c01_x_write_order :
       "disk.DocBlock(meta).SetExt1 uint64(len(docs))", "disk.DocBlock(meta).SetExt2 uint64(offset)",
       "a.meta.Write meta"] ∧
     appendCalls = ["f.writer.Write", "f.indexer.Index"] := by decide
+
+open SV.Extracted.C01 in
+/-- the handler chain is the one `SV.BulkH` models: `Bulk` has a single return and it passes `doBulk`'s error on
+unchanged (nil error only after a nil `doBulk`); `doBulk` returns nil only after `FracManager.Append` returned nil and
+hands it exactly `req.Docs, req.Metas`; `FracManager.Append` leaves its loop either through `ctx.Done()` with
+`ctx.Err()` or after a try that returned nil; a try is refused when the fraction is not writable, otherwise it is
+`active.Append(docs, meta, ..)` of the same two blocks -/
+theorem c01_x_bulk_handler :
+    grpcBulkReturns = ["return &g.blank, err"] ∧ grpcBulkCalls = ["g.doBulk(ctx, req)"] ∧
+    doBulkReturns = ["req.Count == 0 -> return fmt.Errorf(..)",
+      "inflightRequests > int64(g.config.Bulk.RequestsLimit) -> return fmt.Errorf(..)", "err != nil -> return err",
+      "return nil"] ∧
+    doBulkCalls = ["g.fracManager.Append(ctx, req.Docs, req.Metas)"] ∧
+    fmAppendReturns = ["case <-ctx.Done() -> return ctx.Err()",
+      "default / err = fm.Writer().Append(docs, metas); err == nil -> return nil"] ∧
+    proxyAppendCalls = ["active.Append(docs, meta, &f.indexWg)"] ∧
+    proxyAppendReturns = ["!f.isActiveState() -> return errors.New(\"fraction is not writable\")",
+      "err := active.Append(docs, meta, &f.indexWg); err != nil -> return err", "return nil"] := by decide
 
 open SV.Extracted.C01 in
 /-- `FileWriter.Write` reserves `[offset, offset+len)`, writes there, and returns only after an fsync that started
